@@ -323,3 +323,8 @@ func vRSAKeyValid(name string) *rsa.PrivateKey {
 
 // vRand: the entropy source handed to signers.
 func vRand() io.Reader { return cryptorand.Reader }
+
+// non-short-circuit boolean connectives (keep symbolic conditions in one path)
+func vOr(a, b bool) bool      { return a || b }
+func vAnd(a, b bool) bool     { return a && b }
+func vImplies(a, b bool) bool { return !a || b }
